@@ -17,6 +17,14 @@ Proof. unfold hdl. intros ->. reflexivity. Qed.
 Lemma store_hdl s x v : hdl (store s x v) = hdl s.
 Proof. unfold hdl, store. destruct (s_env s) as [|f r] eqn:E; cbn [s_env f_loop]; rewrite ?E; reflexivity. Qed.
 
+Lemma bind_target_hdl tgt s item s' : bind_target tgt s item = Ok s' -> hdl s' = hdl s.
+Proof.
+  destruct tgt as [x|x y]; cbn [bind_target].
+  - intros H; inversion H; subst. apply store_hdl.
+  - destruct (unpack_items item) as [[|a [|b [|? ?]]]|]; try discriminate.
+    intros H; inversion H; subst. rewrite !store_hdl. reflexivity.
+Qed.
+
 Section Hdl.
 Variable c : cfg.
 
@@ -79,8 +87,8 @@ Proof.
       * rewrite <- (hdl_env _ _ H6). eapply IHl; eauto.
       * inversion He; subst. apply hdl_env, H6.
       * inversion He; subst. apply hdl_env, H6.
-    + cbn [exec] in He. bstep He p1 E1. destruct p1 as [v s1]. inversion He; subst.
-      rewrite store_hdl. apply hdl_env. eapply eval_env_proof; eauto.
+    + cbn [exec] in He. bstep He p1 E1. destruct p1 as [v s1]. bstep He s2 E2. inversion He; subst.
+      rewrite (bind_target_hdl _ _ _ _ E2). apply hdl_env. eapply eval_env_proof; eauto.
     + cbn [exec] in He.
       bstep He p1 E1. destruct p1 as [[sg1 txt] s1]. bstep E1 p2 E2. destruct p2 as [sg2 s2]. inversion E1; subst. clear E1.
       assert (H2 : hdl (with_out s2 (s_out s)) = hdl s).
@@ -98,7 +106,7 @@ Proof.
       cbn [exec] in He. bstep He p1 E1. destruct p1 as [vs s1].
       destruct (enclose c s1 (macro_closure [] [] body)) as [s2 cl] eqn:Ee.
       destruct (lookup c s2 m) as [fv s3] eqn:El.
-      destruct fv as [[| | | | | | |mc mcl| |g]|]; try discriminate.
+      destruct fv as [[| | | | | | | |mc mcl| |g]|]; try discriminate.
       bstep He p4 E4. destruct p4 as [v s4]. inversion He; subst.
       transitivity (hdl s4); [apply hdl_env; reflexivity|].
       transitivity (hdl s3); [apply hdl_env; eapply call_macro_env_proof; eauto|].
